@@ -18,6 +18,12 @@ CHECKS = {
  "C12": dict(sec="6 C12", tech="TLC on TCSync with all urgency replies and avoid_snapshots; every uploaded snapshot decoded independently (zlib+JSON) and validated against the spec state by TLC trace validation",
    text="SnapshotFaithful (snapshot = replay of the chain up to its version) and convergence of fresh replicas starting from snapshots are invariants checked by TLC over all urgency/threshold combinations and multi-version syncs; on the code every add_snapshot body is decoded by the harness and compared with the specification's task set for that version, with Unicode-heavy values in one family.",
    note="Snapshot compression/JSON decoding by the harness (flate2 + serde_json generic Value) is trusted."),
+ "C03": dict(sec="6 C03", tech="TLC over all combinations of concurrent operation families x timestamp orders x sync orders against an oracle written from the documented conflict rules (MCConflict); rounds replayed on real replicas; TLC trace validation",
+   text="MCConflict enumerates every pair (thorough: triple) of replicas x operation family x timestamp order x sync order (and a causally later change with arbitrary timestamp) and compares the quiescent state with an oracle that mentions neither the transformation table nor the sync order; the same rounds are executed on real replicas and validated step by step against the specification, so the final state of the code equals the specification state that TLC has shown equal to the oracle.",
+   note="For equal timestamps with different values the documentation leaves the winner open and the oracle admits either; families are bounded to <=3 operations on one shared task plus one other task."),
+ "C14": dict(sec="6 C14", tech="TLC invariant WireClean on TCSync with undo points and populated deletes; every add_version body parsed as generic JSON with exact field sets and compared with the spec's outgoing list by TLC trace validation; versions served back re-rendered in other documented forms",
+   text="The specification states what may be sent (ToSync: only stripped Create/Delete/Update) and TLC checks it on every stored version; on the code each version body is parsed independently of the crate's types (UTF-8, exact field sets, RFC 3339 Z timestamps) and compared with the specification's list; for the converse every pulled version is served in a different rendering of the documented format (key order, whitespace, \\u escapes, timestamp precision) and the replica's resulting state is validated.",
+   note="Documented top-level shape per docs/src/sync-protocol.md as corrected by fix a71c422; renderings are value-preserving re-encodings, not arbitrary third-party documents."),
 }
 
 def check(pid, c):
